@@ -1,4 +1,5 @@
 """C02 -- every link delivers each element exactly once and in sending order."""
+import z3
 from props.start import *      # noqa
 from props.end import *        # noqa
 
@@ -53,6 +54,30 @@ class Wire(PyObj):
                 raise Unsupported('write_all of %r' % (buf,))
             self.chunks += buf.chunks
             return ok(Agg('tuple', None, []))
+        if method == 'read':
+            # a socket read may return fewer bytes than asked for: either the whole next frame part or a strict
+            # prefix of it (the remainder stays on the stream)
+            dst = args[1]
+            if not self.chunks:
+                return ok(Int('usize', 0))
+            ch = self.chunks[0]
+            want = Int('usize', len(dst)) if isinstance(dst, hlib.SliceRef) else deref(dst).total(ex)
+            if ex.choose(2, 'short read') == 1:
+                n = ex.fresh_int('usize', 'short_read')
+                ex.assume(z3.And(z3.UGT(n.v, 0), z3.ULT(n.v, ch.length.z()), z3.ULT(n.v, want.z())))
+                rest = Chunk('partial', None, ex.binop('Sub', ch.length, n))
+                self.chunks[0] = rest
+                part = Chunk('partial', None, n)
+                if isinstance(dst, hlib.SliceRef):
+                    ex.env.setdefault('wire_arrays', {})[id(dst.items)] = part
+                else:
+                    deref(dst).chunks[:] = [part]
+                hlib.cover(ex, 'short_read')
+                return ok(n)
+            args = [args[0], dst]
+            method = 'read_exact'
+            r = self.trait_call(ex, trait, method, args)
+            return ok(want) if r.variant == 'Ok' else r
         if method == 'read_exact':
             dst = args[1]
             if not self.chunks:
@@ -75,6 +100,25 @@ class Wire(PyObj):
         raise Unsupported('Wire ' + method)
 
 
+def _native_framing(ex, nmsgs):
+    """real remote_send / remote_recv over a byte stream handed out in small pieces (replay/net_remote.rs)"""
+    runner, prof = ex.env['native']
+    ex.env['native_used'] = True
+    args = [7, 3, 1, 2, nmsgs]
+    for i in range(nmsgs):
+        args += [i, 40 + 25 * i]
+    txt = runner('framing', args)[prof]
+    ex.env['native_out'] = txt
+    if txt == 'PANIC':
+        from mirsym.executor import RustPanic
+        raise RustPanic('the real remote_recv panicked on a stream delivered in 7-byte pieces')
+    toks = txt.split()
+    want = ['%d:%d:1' % (i, 40 + 25 * i) for i in range(nmsgs)] + ['REST', '0']
+    if toks != want:
+        raise Violation('framing round trip over a piecewise stream: got %r, expected %r' % (txt, ' '.join(want)))
+    return {'native': txt}
+
+
 def framing_harness(w, nmsgs):
     send = [f for f in w.prog.functions if f.name == 'remote_send'][0]
     recv = [f for f in w.prog.functions if f.name == 'remote_recv'][0]
@@ -82,6 +126,8 @@ def framing_harness(w, nmsgs):
     def h(ex):
         wire = Wire()
         sent = []
+        if ex.env.get('native'):
+            return _native_framing(ex, nmsgs)
         bc_host = ex.fresh_int('u64', 'dest_host')
         bc_block = ex.fresh_int('u64', 'dest_block')
         prev_block = ex.fresh_int('u64', 'prev_block')
